@@ -71,11 +71,21 @@ fn build_config(desc: &Value, env: &mut Env) -> Result<Config, String> {
         .to_string();
     if let Some(map) = desc.get("layout_json") {
         // Synthetic layout: {"info":{}, "layout": {...}} written to a scratch file.
+        // the file name is a function of the content, so that two configs with the same synthetic
+        // layout name the same file (update_engine then keeps the method object)
         env.counter += 1;
-        let p = format!("{}/layout-{}.json", env.xdg, env.counter);
         let doc = json!({ "info": {"layout": {"name": "verif"}}, "layout": map });
-        std::fs::write(&p, serde_json::to_vec(&doc).unwrap()).map_err(|e| e.to_string())?;
-        env.tmp_files.push(p.clone());
+        let bytes = serde_json::to_vec(&doc).unwrap();
+        let mut h: u64 = 0xcbf29ce484222325;
+        for b in &bytes {
+            h ^= *b as u64;
+            h = h.wrapping_mul(0x100000001b3);
+        }
+        let p = format!("{}/layout-{:016x}.json", env.xdg, h);
+        std::fs::write(&p, bytes).map_err(|e| e.to_string())?;
+        if !env.tmp_files.contains(&p) {
+            env.tmp_files.push(p.clone());
+        }
         layout_path = p;
     }
     let c = CString::new(layout_path.clone()).map_err(|e| e.to_string())?;
@@ -250,6 +260,26 @@ fn run_scenario(sc: &Value) -> Value {
             },
             "free" => {
                 ctxs.remove(&cid);
+            }
+            "get_state" | "set_state" => {
+                if let Some(c) = ctxs.get(&cid) {
+                    if op == "set_state" {
+                        let text = st["state"].to_string();
+                        if let Err(p) = guarded(|| c.verif_set_state(&text)) {
+                            r.insert("panic".into(), json!(p));
+                        }
+                    }
+                    match guarded(|| c.verif_get_state()) {
+                        Ok(t) => {
+                            r.insert("state".into(), serde_json::from_str(&t).unwrap_or(Value::Null));
+                        }
+                        Err(p) => {
+                            r.insert("panic".into(), json!(p));
+                        }
+                    }
+                } else {
+                    r.insert("error".into(), json!("no such context"));
+                }
             }
             "key" | "backspace" | "commit" | "finish" | "ongoing" => {
                 if let Some(c) = ctxs.get(&cid) {
